@@ -140,6 +140,11 @@ func checkC16(c c16Case, rec *Rec) *Violation {
 		e := urlfilter.NewEngine(st)
 		res := e.MatchRequest(rules.NewRequest("http://example.org/", "", rules.TypeDocument))
 		got = res.GetCosmeticOption()
+		// the same engine is first asked with everything enabled: the answer for the derived option must not depend on that
+		if all := e.GetCosmeticResult("example.org", rules.CosmeticOptionAll); !inList(".generic", all.ElementHiding.Generic) || !inList(".specific", all.ElementHiding.Specific) {
+			return viol(id, "C16:engine-selectors", "with every option enabled the selectors are generic=%q specific=%q", all.ElementHiding.Generic, all.ElementHiding.Specific)
+		}
+		_ = e.GetCosmeticResult("example.org", rules.CosmeticOptionCSS)
 		cr := e.GetCosmeticResult("example.org", got)
 		hasG := inList(".generic", cr.ElementHiding.Generic)
 		hasS := inList(".specific", cr.ElementHiding.Specific)
